@@ -1,6 +1,7 @@
 import RedisVerif.Driver.C15
 import RedisVerif.Model.Conn
 import RedisVerif.Model.ConnWrite
+import RedisVerif.Model.ConnSim
 
 /-
   C04 sub-driver.  One line in, one line out:
@@ -10,6 +11,7 @@ import RedisVerif.Model.ConnWrite
         successive network segments and then EOF
       → n=<replies> [<reply> ; …] end=<eof|crash>
     reply = `V <value>` | `E` (an error reply) | `PE` (-ERR protocol error) | `OV` (buffer overflow)
+    S <seg,seg,…>   the mirror `SimulatedConnection::process` → n=<replies> [<reply> ; …] end=<eof|crash>
     K <minPipeline> <batchThreshold> <headerLen> <readSize> <maxBuffer> <seg,seg,…>
       → n=<replies> end=<eof|crash>      (commands outside the reference executor: count only)
     W <minPipeline> <batchThreshold> <headerLen> <readSize> <maxBuffer> <seg,seg,…> <script> <stop>
@@ -95,6 +97,14 @@ def step (line : String) : String :=
       let srv := serve cfg (Pool.init ps true) specs (seqEvents specs.length)
       " | ".intercalate (srv.outs.map (fun o => showConn o.2))
     | _, _, _, _, _, _, _ => "bad-op"
+  | ["S", segs] =>
+    -- the MIRROR (SimulatedConnection::process, Model/ConnSim.lean) on the same reference executor
+    match segsOf segs with
+    | some ss =>
+      let r := ConnSim.simRun C15.envD (fun _ => false) ss
+      let rs := replies ExSt.init (r.done.map (fun f => Action.exec f .generic))
+      s!"n={rs.length} [{" ; ".intercalate (rs.map showReply)}] end={if r.crashed then "crash" else "eof"}"
+    | none => "bad-op"
   | ["K", mp, bt, hl, rs, mb, segs] =>
     -- any well-formed commands (the reference executor does not know them): the number of replies only
     match mp.toNat?, bt.toNat?, hlOf hl, rs.toNat?, mb.toNat?, segsOf segs with
